@@ -237,6 +237,7 @@ end
 
 /-! ## Part 3 — an executable recogniser for `number` (sound and complete: `Lemmas/JsonNumber.lean`) -/
 
+instance : DecidablePred Ws := fun cs => by unfold Ws; infer_instance
 instance : DecidablePred Digit := fun c => by unfold Digit; infer_instance
 instance : DecidablePred Digit19 := fun c => by unfold Digit19; infer_instance
 instance : DecidablePred Digits := fun cs => by unfold Digits; infer_instance
